@@ -1174,6 +1174,12 @@ func (x *Exec) binop(f *Frame, op token.Token, a, b Term, at, bt, rt types.Type,
 	default:
 		x.fail("binary %s", op)
 	}
+	if f.top && x.con != nil && x.con.Arith == "mathematical" {
+		x.note("machine arithmetic treated as mathematical in " + x.fnKeyShort() + " (arith mathematical): +, -, * are assumed not to overflow")
+		lo, hi, _ := intRange(rt)
+		x.assume(x.cur.reach, And(mk(SBool, "(<= %s %s)", bigTerm(lo), raw), mk(SBool, "(<= %s %s)", raw, bigTerm(hi))))
+		return raw
+	}
 	if x.checked && f.top {
 		lo, hi, _ := intRange(rt)
 		g := And(mk(SBool, "(<= %s %s)", bigTerm(lo), raw), mk(SBool, "(<= %s %s)", raw, bigTerm(hi)))
